@@ -276,11 +276,21 @@ def do_extrapolate(ctx, trace, manager, seam, out, ready, attached, world, last_
     existed = os.path.exists(out)
     before = open(out, "rb").read() if existed else None
     n_files_before = len(seam.files)
+    bare = trace["np_seed"] % 4 == 3
+    old_cwd = os.getcwd()
     try:
-        manager.extrapolate_system(out)
+        if bare:
+            # the output is named by a bare file name, relative to the working directory (no directory component at all)
+            os.chdir(os.path.dirname(out))
+            manager.extrapolate_system(os.path.basename(out))
+            ctx.probe("output_named_by_a_bare_file_name")
+        else:
+            manager.extrapolate_system(out)
         raised = None
     except Exception as e:
         raised = e
+    finally:
+        os.chdir(old_cwd)
     if ready is None:
         ctx.probe("extrapolation_with_map_from_before_detach")
         if raised is not None:
